@@ -1,4 +1,7 @@
-(* C12 driver: case line `<fixed 0|1> <required 0|1> <hex utf-8 text | ->`;
+(* C12 driver: case line `<variant 0|1|2> <required 0|1> <hex utf-8 text | ->`;
+   variant 0 = header.rs as first pinned, 1 = after the array-loop and u64 repairs,
+   2 = after the nesting limit (MAX_SETTING_DEPTH) as well; the native stack is unbounded
+   (`None`) in all runs.
    prints the header parser mirror's result in the format of harness/src/bin/c12.rs *)
 let bytes_of_hex (h : string) : int list =
   if h = "-" then [] else
@@ -67,7 +70,7 @@ let () =
     match split_ws line with
     | [fx; rq; h] ->
       let src = List.map n_of_int (decode (bytes_of_hex h)) in
-      (match parse_header_gen (fx = "1") (rq = "1") (fuel_for src) src with
+      (match parse_header_gen (fx <> "0") (fx = "2") (rq = "1") None (fuel_for src) src with
        | Panic -> "PANIC"
        | OutOfFuel -> "HANG"
        | Done (HOk (hdr, pos)) ->
